@@ -62,3 +62,22 @@ Lemma xq_is_zero_Fin_false q : xq_is_zero (Fin q) = false -> Q2R q <> 0.
 Proof. unfold xq_is_zero; simpl. intros H. apply q_eqb_false in H. rewrite Q2R_0 in H. exact H. Qed.
 Lemma xq_is_one_Fin q : xq_is_one (Fin q) = true -> Q2R q = 1.
 Proof. unfold xq_is_one; simpl. intros H. apply q_eqb_true in H. rewrite H. apply Q2R_1. Qed.
+
+Lemma xq_max_Fin a b : exists c, xq_max (Fin a) (Fin b) = Fin c /\ Q2R c = Rmax (Q2R a) (Q2R b).
+Proof.
+  cbn [xq_max]. unfold xq_leb; cbn [xq_ltb xq_eqb].
+  destruct (q_ltb a b) eqn:L; cbn [orb].
+  - exists b; split; [reflexivity|]. apply q_ltb_true in L. rewrite Rmax_right; lra.
+  - destruct (q_eqb a b) eqn:Q.
+    + exists b; split; [reflexivity|]. apply q_eqb_true in Q. rewrite Rmax_right; lra.
+    + exists a; split; [reflexivity|]. apply q_ltb_false in L. rewrite Rmax_left; lra.
+Qed.
+Lemma xq_min_Fin a b : exists c, xq_min (Fin a) (Fin b) = Fin c /\ Q2R c = Rmin (Q2R a) (Q2R b).
+Proof.
+  cbn [xq_min]. unfold xq_leb; cbn [xq_ltb xq_eqb].
+  destruct (q_ltb a b) eqn:L; cbn [orb].
+  - exists a; split; [reflexivity|]. apply q_ltb_true in L. rewrite Rmin_left; lra.
+  - destruct (q_eqb a b) eqn:Q.
+    + exists a; split; [reflexivity|]. apply q_eqb_true in Q. rewrite Rmin_left; lra.
+    + exists b; split; [reflexivity|]. apply q_ltb_false in L. rewrite Rmin_right; lra.
+Qed.
